@@ -138,53 +138,59 @@ func c20Measure(s c20Shape, warm string, only string) (allocating []string, nops
 	type op struct {
 		name string
 		f    func()
+		base func() // when set: what f does besides the operation under test; only allocations beyond base count
 	}
+	runt := raw[:len(raw)/2]
 	ops := []op{
-		{"Message.Write", func() { _, _ = m.Write(raw) }},
-		{"Decode(data,m)", func() { _ = stun.Decode(raw, m) }},
-		{"Message.ReadFrom", func() { _, _ = m.ReadFrom(rd) }},
-		{"Get", func() { _, _ = m.Get(stun.AttrSoftware); _, _ = m.Get(stun.AttrUsername); _, _ = m.Get(0x7777) }},
-		{"Contains", func() { _ = m.Contains(stun.AttrFingerprint); _ = m.Contains(0x7777) }},
-		{"ForEach", func() { _ = m.ForEach(stun.AttrUsername, feach); _ = m.ForEach(stun.AttrXORMappedAddress, feach) }},
-		{"Build(pointer-setters)", func() { _ = bm.Build(setters...) }},
+		{"Message.Write", func() { _, _ = m.Write(raw) }, nil},
+		// an undecodable datagram (the first half of the message) in between: the warm storage survives it
+		{"Message.Write(after an undecodable datagram)", func() { _, _ = m.Write(runt); _, _ = m.Write(raw) }, func() { _, _ = m.Write(runt) }},
+		{"Decode(data,m)", func() { _ = stun.Decode(raw, m) }, nil},
+		{"Message.ReadFrom", func() { _, _ = m.ReadFrom(rd) }, nil},
+		{"Get", func() { _, _ = m.Get(stun.AttrSoftware); _, _ = m.Get(stun.AttrUsername); _, _ = m.Get(0x7777) }, nil},
+		{"Contains", func() { _ = m.Contains(stun.AttrFingerprint); _ = m.Contains(0x7777) }, nil},
+		{"ForEach", func() { _ = m.ForEach(stun.AttrUsername, feach); _ = m.ForEach(stun.AttrXORMappedAddress, feach) }, nil},
+		{"Build(pointer-setters)", func() { _ = bm.Build(setters...) }, nil},
 	}
 	if present[stun.AttrUsername] {
-		ops = append(ops, op{"Username.GetFrom", func() { _ = uname.GetFrom(m) }})
+		ops = append(ops, op{name: "Username.GetFrom", f: func() { _ = uname.GetFrom(m) }})
 	}
 	if present[stun.AttrRealm] {
-		ops = append(ops, op{"Realm.GetFrom", func() { _ = realm.GetFrom(m) }})
+		ops = append(ops, op{name: "Realm.GetFrom", f: func() { _ = realm.GetFrom(m) }})
 	}
 	if present[stun.AttrNonce] {
-		ops = append(ops, op{"Nonce.GetFrom", func() { _ = nonce.GetFrom(m) }})
+		ops = append(ops, op{name: "Nonce.GetFrom", f: func() { _ = nonce.GetFrom(m) }})
 	}
 	if present[stun.AttrSoftware] {
-		ops = append(ops, op{"Software.GetFrom", func() { _ = soft.GetFrom(m) }})
+		ops = append(ops, op{name: "Software.GetFrom", f: func() { _ = soft.GetFrom(m) }})
 	}
 	if present[stun.AttrXORMappedAddress] {
-		ops = append(ops, op{"XORMappedAddress.GetFrom", func() { _ = xaddr.GetFrom(m) }})
+		ops = append(ops, op{name: "XORMappedAddress.GetFrom", f: func() { _ = xaddr.GetFrom(m) }})
 	}
 	if present[stun.AttrMappedAddress] {
-		ops = append(ops, op{"MappedAddress.GetFrom", func() { _ = maddr.GetFrom(m) }})
+		ops = append(ops, op{name: "MappedAddress.GetFrom", f: func() { _ = maddr.GetFrom(m) }})
 	}
 	if present[stun.AttrAlternateServer] {
-		ops = append(ops, op{"AlternateServer.GetFrom", func() { _ = alt.GetFrom(m) }})
+		ops = append(ops, op{name: "AlternateServer.GetFrom", f: func() { _ = alt.GetFrom(m) }})
 	}
 	if present[stun.AttrErrorCode] {
-		ops = append(ops, op{"ErrorCodeAttribute.GetFrom", func() { _ = ecode.GetFrom(m) }})
+		ops = append(ops, op{name: "ErrorCodeAttribute.GetFrom", f: func() { _ = ecode.GetFrom(m) }})
 	}
 	if present[stun.AttrUnknownAttributes] {
-		ops = append(ops, op{"UnknownAttributes.GetFrom", func() { _ = uattr.GetFrom(m) }})
+		ops = append(ops, op{name: "UnknownAttributes.GetFrom", f: func() { _ = uattr.GetFrom(m) }})
 	}
 	if key != nil {
-		ops = append(ops, op{"MessageIntegrity.Check", func() { _ = key.Check(m) }})
+		ops = append(ops, op{name: "MessageIntegrity.Check", f: func() { _ = key.Check(m) }})
 		wrong := stun.MessageIntegrity("not the key of this message")
-		ops = append(ops, op{"MessageIntegrity.Check/mismatch", func() { _ = wrong.Check(m) }})
+		ops = append(ops, op{name: "MessageIntegrity.Check/mismatch", f: func() { _ = wrong.Check(m) }})
+		// two keys in turn (two users, an old and a new password): the pooled state changes key on every call
+		ops = append(ops, op{name: "MessageIntegrity.Check/alternating-keys", f: func() { _ = key.Check(m); _ = wrong.Check(m) }})
 	}
 	if len(s.Kinds) >= 2 {
 		// forward the message without its first attribute, re-encoding in place: the values handed to Add are
 		// views into the message's own buffer
 		own := make([]stun.RawAttribute, 0, 64)
-		ops = append(ops, op{"Add(values that are views into the message itself)", func() {
+		ops = append(ops, op{name: "Add(values that are views into the message itself)", f: func() {
 			own = append(own[:0], m.Attributes...)
 			m.Reset()
 			m.WriteHeader()
@@ -196,13 +202,13 @@ func c20Measure(s c20Shape, warm string, only string) (allocating []string, nops
 	}
 	for _, x := range s.Suffix {
 		if x == "FP" {
-			ops = append(ops, op{"Fingerprint.Check", func() { _ = stun.Fingerprint.Check(m) }})
+			ops = append(ops, op{name: "Fingerprint.Check", f: func() { _ = stun.Fingerprint.Check(m) }})
 			if key != nil {
 				// the batch helper, checkers in both orders (the slices are built once, outside the measurement)
 				miFP := []stun.Checker{key, stun.Fingerprint}
 				fpMI := []stun.Checker{stun.Fingerprint, key}
-				ops = append(ops, op{"Message.Check(integrity, fingerprint)", func() { _ = m.Check(miFP...) }})
-				ops = append(ops, op{"Message.Check(fingerprint, integrity)", func() { _ = m.Check(fpMI...) }})
+				ops = append(ops, op{name: "Message.Check(integrity, fingerprint)", f: func() { _ = m.Check(miFP...) }})
+				ops = append(ops, op{name: "Message.Check(fingerprint, integrity)", f: func() { _ = m.Check(fpMI...) }})
 			}
 		}
 	}
@@ -212,13 +218,19 @@ func c20Measure(s c20Shape, warm string, only string) (allocating []string, nops
 		}
 		nops++
 		o.f() // warm-up: destination values and buffers have now been used for this message
-		if testing.AllocsPerRun(10, o.f) == 0 {
+		var baseline float64
+		if o.base != nil {
+			o.base()
+			baseline = testing.AllocsPerRun(100, o.base)
+			o.f()
+		}
+		if testing.AllocsPerRun(10, o.f) <= baseline {
 			continue
 		}
 		// a non-zero reading must repeat on 5 longer measurements
 		stable := true
 		for i := 0; i < 5; i++ {
-			if testing.AllocsPerRun(100, o.f) == 0 {
+			if testing.AllocsPerRun(100, o.f) <= baseline {
 				stable = false
 				break
 			}
@@ -237,7 +249,7 @@ func c20Key(name, warm string) string {
 		if strings.HasPrefix(name, "Message.Check(") {
 			name = "MessageIntegrity.Check" // the batch helper runs that very check: same call site, same scratch
 		}
-		return "allocates/" + strings.TrimSuffix(name, "/mismatch") + "/only-without-spare-capacity"
+		return "allocates/" + strings.TrimSuffix(strings.TrimSuffix(name, "/mismatch"), "/alternating-keys") + "/only-without-spare-capacity"
 	}
 	return "allocates/" + name
 }
